@@ -1629,6 +1629,7 @@ void ABTI_xstream_check_events(ABTI_xstream *p_xstream, ABTI_sched *p_sched)
     if (request & ABTI_THREAD_REQ_CANCEL) {
         ABTI_sched_exit(p_sched);
     }
+    ABTI_VERIF_SPIN_HINT(ABTI_VERIF_SITE_SCHED_EVENTS, p_sched);
 }
 
 void ABTI_xstream_free(ABTI_global *p_global, ABTI_local *p_local,
